@@ -13,8 +13,15 @@ m=json.load(open('$d/meta.json'))
 c=m.get('caught_by')
 print(c[0] if isinstance(c,list) and c else '')")
   [ -z "$id" ] && { echo "$n SKIP (no caught_by)"; continue; }
-  git apply "$d/patch.diff" 2>/dev/null || { echo "$n PATCH-DOES-NOT-APPLY"; continue; }
-  ( cd /verif && CARGO_NET_OFFLINE=true VERIF_NO_CORPUS=${VERIF_NO_CORPUS:-1} timeout 1800 $BIN $id quick > /tmp/regress_$n.log 2>&1 ); rc=$?
+  if ! git apply "$d/patch.diff" 2>/dev/null; then
+    # patches written against the tree before fix 11bb057 (F15): apply them on top of its reversal
+    if git apply /verif/seeded/revert-F15/patch.diff 2>/dev/null && git apply "$d/patch.diff" 2>/dev/null; then
+      n="$n(on pre-F15 tree)"
+    else
+      git checkout -- .; echo "$n PATCH-DOES-NOT-APPLY"; continue
+    fi
+  fi
+  ( cd /verif && CARGO_NET_OFFLINE=true VERIF_NO_CORPUS=${VERIF_NO_CORPUS:-1} timeout 1800 $BIN $id quick > "/tmp/regress_$(basename $d).log" 2>&1 ); rc=$?
   git checkout -- .
   if [ $rc -eq 1 ]; then echo "$n caught by $id"; else echo "$n NOT CAUGHT by $id (rc=$rc)"; fi
 done
